@@ -42,3 +42,72 @@ def replay_get_back_off_time(p):
                     if m._get_back_off_time() != exp: return {"violated": True, "detail": f"_get_back_off_time with delay {cur}, breaker {br}, sleep {sl} -> {m._get_back_off_time()}, expected {exp}"}
         return {"violated": False, "inconclusive": True}
     finally: loop.close()
+
+def manager_virtual_time(p):
+    """bounded: the real ConnectionManager.connect_loop on a real event loop with a virtual clock (asyncio.sleep and datetime.utcnow as seen by han.meter_connection are
+    replaced: sleeping advances the clock and yields).  Every attempt-outcome sequence up to the given length: fail / ok-and-lost-soon / ok-and-lost-late.  Checked: the attempt
+    after n consecutive failures starts exactly max(min(2^(n-1), max_delay), breaker sleep if the breaker is set) virtual seconds after the failure, a success resets the
+    sequence, and after two losses within the threshold the next attempt waits at least the configured sleep."""
+    import datetime as real_dt, logging
+    logging.getLogger("han.meter_connection").setLevel(logging.CRITICAL)
+    maxlen = p.get("maxlen", 6); ev = 0; bad = []
+    def sequences(cap):
+        for L in range(1, maxlen + 1): yield from itertools.product("fsl", repeat=L)          # f: attempt fails; s: succeeds, lost after 1 s; l: succeeds, lost after 100 s
+        if cap > 64:
+            for k in range(maxlen + 1, 15): yield ("f",) * k; yield ("s",) + ("f",) * k           # long runs of failures below a large cap
+    for cap, thr, slp in ((60, 5, 5), (4, 5, 7), (60, 3, 2), (3600, 5, 5)):
+        for _once in (0,):
+            for seq in sequences(cap):
+                ev += 1; clock = [0.0]; log = []
+                class FakeDT:
+                    @staticmethod
+                    def utcnow(): return real_dt.datetime(2020, 1, 1) + real_dt.timedelta(seconds=clock[0])
+                class FakeMod: datetime = FakeDT; timedelta = real_dt.timedelta
+                real_sleep = asyncio.sleep
+                async def fake_sleep(t):
+                    log.append(("sleep", clock[0], t)); clock[0] += t; await real_sleep(0)
+                loop = asyncio.new_event_loop(); asyncio.set_event_loop(loop)
+                saved = (mc.sleep, mc.datetime)
+                mc.sleep = fake_sleep; mc.datetime = FakeMod
+                try:
+                    it = iter(seq); mgr_box = []
+                    async def factory():
+                        try: c = next(it)
+                        except StopIteration:
+                            mgr_box[0].close(); raise OSError("script exhausted")
+                        log.append(("attempt", clock[0], c))
+                        if c == "f": raise OSError("connect failed")
+                        class T:
+                            def close(s): pass
+                        class Pr: pass
+                        pr = Pr(); pr.done = loop.create_future(); hold = 1 if c == "s" else 100
+                        def lose():
+                            clock[0] += hold; log.append(("lost", clock[0]))
+                            if not pr.done.done(): pr.done.set_result(True)
+                        loop.call_soon(lose)
+                        return (T(), pr)
+                    m = mc.ConnectionManager(factory); mgr_box.append(m); m.back_off_connect_error.max_delay = cap
+                    m.connection_lost_back_off_threshold = thr; m.connection_lost_back_off_sleep_sec = slp
+                    loop.run_until_complete(asyncio.wait_for(m.connect_loop(), timeout=20))
+                except Exception as ex:
+                    bad.append({"sequence": "".join(seq), "why": f"connect_loop raised {ex!r}"})
+                finally:
+                    mc.sleep, mc.datetime = saved; loop.close()
+                # evaluate the log
+                n_fail = 0; last_event = None; losses = []; breaker = False
+                for e in log:
+                    if e[0] == "attempt":
+                        t = e[1]
+                        if last_event is not None:
+                            kind, t0 = last_event; need = sp.backoff(n_fail, cap); extra = slp if breaker else 0
+                            want = max(need, extra) if (need > 0 or breaker) else 0
+                            if abs((t - t0) - want) > 1e-9: bad.append({"sequence": "".join(seq), "config": [cap, thr, slp], "why": f"attempt at {t} after {kind} at {t0} with {n_fail} consecutive failures (breaker {breaker}): waited {t - t0}, expected {want}"})
+                        if e[2] == "f": n_fail += 1; last_event = ("failure", t)
+                        else: n_fail = 0; last_event = None
+                    elif e[0] == "lost":
+                        t = e[1]; breaker = (t - losses[-1] < thr) if losses else breaker; losses.append(t); last_event = ("loss", t)
+                if bad: break
+            if bad: break
+        if bad: break
+    return {"name": "ConnectionManager.connect_loop on a virtual clock", "bound": f"every attempt-outcome sequence over (fail, ok lost after 1 s, ok lost after 100 s) up to length {maxlen} (plus runs of up to 14 failures under max_delay 3600) x 4 configurations of (max_delay, threshold, sleep)",
+            "evaluations": ev, "distinct_nontrivial": ev, "violations": bad[:2]}
